@@ -51,13 +51,44 @@ def sym_orth():
     return True, ""
 
 
+def nat_orth_left_handed(rng):
+    """orth / orth_unocc and the density integral in a cell whose lattice matrix has a negative determinant (the same physical lattice)."""
+    import eminus
+    from eminus import Atoms
+    from eminus.dft import get_n_total, orth, orth_unocc
+
+    eminus.config.backend = "numpy"
+    eminus.config.verbose = "critical"
+    a0 = np.array([[4.0, 0.3, 0.1], [0.2, 4.5, 0.4], [0.5, 0.1, 5.0]])
+    e = 0.0
+    for a in (a0[[1, 0, 2]], a0 * np.array([[1], [1], [-1]])):
+        at = Atoms("Li", [[0.1, 0.2, 0.3]], ecut=3, a=a, unrestricted=True)
+        at.s = [6, 5, 4]
+        at.set_k([[0.0, 0.0, 0.0], [0.2, 0.1, 0.05]], [0.3, 0.7])
+        W = [rnd(rng, 2, len(at.Gk2c[ik]), at.occ.Nstate) for ik in range(2)]
+        Z = [rnd(rng, 2, len(at.Gk2c[ik]), 2) for ik in range(2)]
+        Y = orth(at, W)
+        D = orth_unocc(at, Y, Z)
+        f = np.asarray(at.occ.f)
+        for ik in range(2):
+            for s in range(2):
+                y, d = np.asarray(Y[ik][s]), np.asarray(D[ik][s])
+                occ = f[ik, s] > 0
+                e = max(e, np.abs(y.conj().T @ np.asarray(at.O(y)) - np.eye(y.shape[1])).max(), np.abs(np.asarray(orth(at, y)) - y).max(),
+                        np.abs(d.conj().T @ np.asarray(at.O(d)) - np.eye(2)).max(), np.abs(d.conj().T @ np.asarray(at.O(y[:, occ]))).max() if occ.any() else 0.0)
+        n = np.asarray(get_n_total(at, Y))
+        nel = float(np.sum(f * np.asarray(at.kpts.wk)[:, None, None]))
+        e = max(e, abs(float(n.sum() * at.dV) - nel), float(max(0.0, -n.min())))
+    return e
+
+
 def nat_orth(rng):
     from eminus.dft import orth
 
     at = native_atoms(Nspin=2)
     W = [rnd(rng, 2, len(at.Gk2c[ik]), 3) for ik in range(at.kpts.Nk)]
     Y = orth(at, W)
-    e = 0
+    e = nat_orth_left_handed(rng)
     for ik in range(at.kpts.Nk):
         for s in range(2):
             y = Y[ik][s]
@@ -994,7 +1025,52 @@ def nat_grad_coarse_even_grid(xc, s=(6, 6, 8), pot="gth", unrestricted=None, kme
     return f
 
 
+def nat_grad_xc_params(rng):
+    """The derivative relation with non-default functional parameters set through SCF.xc_params (energy, potential and the keyword-less gradient all use them)."""
+    import eminus
+    from eminus import SCF, Atoms
+    from eminus.dft import get_grad, guess_random
+    from eminus.energies import get_E
+
+    eminus.config.backend = "numpy"
+    eminus.config.verbose = "critical"
+    worst = 0.0
+    for xc, par in (("pbe", dict(mu=10 / 81, beta=0.046)), ("lda,gdsmfb", dict(T=0.3))):
+        at = Atoms(["Li", "H"], [[0.2, 0.1, 0.3], [0.4, 0.2, 3.1]], ecut=4, a=[[6.0, 0.3, 0.1], [0.2, 6.5, 0.4], [0.5, 0.1, 7.0]], unrestricted=True)
+        at.s = [7, 7, 9]
+        scf = SCF(at, xc=xc, verbose="critical")
+        scf.xc_params = dict(par)
+        at = scf.atoms
+        W = [np.asarray(w) for w in guess_random(scf)]
+        D = [rnd(rng, *w.shape) for w in W]
+        D = [d * np.linalg.norm(w) / np.linalg.norm(d) for w, d in zip(W, D)]
+
+        def E(t, W=W, D=D, scf=scf):
+            scf.W = [w + t * d for w, d in zip(W, D)]
+            scf._precompute()
+            return get_E(scf)
+
+        h = 1e-3
+        num = (8 * (E(h) - E(-h)) - (E(2 * h) - E(-2 * h))) / (12 * h)
+        scf.W = [w.copy() for w in W]
+        scf._precompute()
+        ana = sum(2 * np.real(np.vdot(np.asarray(get_grad(scf, ik, sp, scf.W, **scf._precomputed)), D[ik][sp])) for ik in range(at.kpts.Nk) for sp in range(2))
+        plain = sum(2 * np.real(np.vdot(np.asarray(get_grad(scf, ik, sp, scf.W)), D[ik][sp])) for ik in range(at.kpts.Nk) for sp in range(2))
+        # the parameters have an effect at all (otherwise the case shows nothing)
+        scf0 = SCF(scf.atoms, xc=xc, verbose="critical")
+        scf0.W = [w.copy() for w in W]
+        scf0._precompute()
+        if abs(get_E(scf0) - E(0.0)) < 1e-8:
+            raise RuntimeError(f"harness: xc_params {par} do not change the energy of {xc}")
+        worst = max(worst, abs(ana - num) / abs(num), abs(plain - num) / abs(num))
+    return worst
+
+
 def _register_coarse():
+    register(Obligation(name="C01.total_energy.slope_eq_2Re_grad_D.functional_parameters", prop="C01", engine="B", bounded=True,
+                        functions=["eminus.dft:get_grad", "eminus.dft:H_precompute", "eminus.xc.utils:get_vxc", "eminus.xc.utils:get_exc", "eminus.energies:get_Exc"],
+                        run=BoundedNative(nat_grad_xc_params, 1, tol=2e-6, what="slope of the total energy vs 2 Re<grad, D> with SCF.xc_params set (PBE with PBEsol parameters, GDSMFB at T > 0), with and without pre-computed fields"),
+                        budget={"quick": 300, "thorough": 600}, doc="BOUNDED: derivative relation with non-default functional parameters (energy and potential use the same parameters)"))
     for xc, tag in (("lda,vwn", "lda"), ("pbe", "pbe")):
         register(Obligation(name=f"C01.total_energy.slope_eq_2Re_grad_D.coarse_even_grid.{tag}", prop="C01", engine="B", bounded=True,
                             functions=["eminus.dft:get_grad", "eminus.dft:H", "eminus.gga:gradient_correction", "eminus.energies:get_E"],
@@ -1019,6 +1095,11 @@ def _register_families():
                                           what="slope of the total energy vs 2 Re<grad, D>: TPSS, unrestricted, two k-points with weights (0.3, 0.7)"),
                         budget={"quick": 300, "thorough": 600}, doc="BOUNDED: derivative relation for a meta-GGA with unequal k-point weights (tau and its potential carry the same weights); default sampling (11, 11, 14): "
                             "on a coarser one aliasing gives grid points with tau < |grad n|^2 / (8 n) where Libxc clamps its inputs (1e-5 at (7, 7, 9) with unequal weights)"))
+    register(Obligation(name="C01.total_energy.slope_eq_2Re_grad_D.family.mgga_tpss_one_shifted_kpoint", prop="C01", engine="B", bounded=True,
+                        functions=["eminus.dft:get_grad", "eminus.gga:get_tau", "eminus.gga:calc_Vtau", "eminus.energies:get_E"],
+                        run=BoundedNative(nat_grad_coarse_even_grid(":MGGA_X_TPSS,:MGGA_C_TPSS", s=(11, 11, 14), unrestricted=False, setk=([[0.2, 0.1, 0.05]], [1.0])), 1, tol=1e-6,
+                                          what="slope of the total energy vs 2 Re<grad, D>: TPSS, ONE k-point that is not Gamma"),
+                        budget={"quick": 300, "thorough": 600}, doc="BOUNDED: derivative relation for a meta-GGA at a single shifted k-point (tau and its potential use G + k for every k-point set)"))
     # LiH has NO non-local projectors (lmax = 0 for both species): systems of two species that both carry projectors (Si: s, s, p; C: s) exercise the
     # species-dependent non-local term of H against the non-local energy
     for tag, sp, unres, km in (("nonlocal_SiC_pbe", ("Si", "C"), False, None), ("nonlocal_CSiC_lda_pol_2k", ("C", "Si", "C"), True, (2, 1, 1))):
@@ -1125,13 +1206,17 @@ def nat_grad_without_kwargs(rng):
     e = 0.0
     for xc in ("pbe", ":MGGA_X_TPSS,:MGGA_C_TPSS"):
         e = max(e, _nat_grad_without_kwargs(rng, xc))
+    # non-default functional parameters (PBE form with the PBEsol mu / beta; VWN with another A): energy and potential both honour them
+    e = max(e, _nat_grad_without_kwargs(rng, "pbe", dict(mu=10 / 81, beta=0.046)))
     return e
 
 
-def _nat_grad_without_kwargs(rng, xc):
+def _nat_grad_without_kwargs(rng, xc, xc_params=None):
     from eminus.dft import get_grad
 
     scf, at = _native_scf(Nspin=2, xc=xc, atom="He")
+    if xc_params is not None:
+        scf.xc_params = dict(xc_params)
     W0 = [np.asarray(w) for w in scf.W]
     W1 = [w + 0.2 * rnd(rng, *w.shape) for w in W0]
     scf.W = [w.copy() for w in W0]
